@@ -160,7 +160,7 @@ func specInScope(stack []scope, n int, s scope) bool {
 // ----------------------------------------------------------------------------
 //
 //@ func (context).findScope
-//@   loop 1 invariant[C07] not-found-above: specInScope(c.scopeStack, len(c.scopeStack), s) == specInScope(c.scopeStack, i + 1, s) && i < len(c.scopeStack)
+//@   loop @"for i >= 0" invariant[C07] not-found-above: specInScope(c.scopeStack, len(c.scopeStack), s) == specInScope(c.scopeStack, i + 1, s) && i < len(c.scopeStack)
 //@   ensures[C07] searches-whole-stack: result == specInScope(c.scopeStack, len(c.scopeStack), s)
 //
 // Precedence chain (Go spec, Operator precedence): || < && < comparison < + - < * / % < unary.
@@ -187,8 +187,8 @@ func specInScope(stack []scope, n int, s scope) bool {
 //
 //@ func (*Parser).evaluateBinaryOperation
 //@   param higherPrioOperation ensures[C06] typed-result: err == nil ==> specTyped(result)
-//@   loop 1 invariant[C06] accumulator-typed: specTyped(leftExpression)
-//@   loop 1 invariant[C01,C04] left-assoc-source-order: calls(higherPrioOperation) >= 1 && (calls(higherPrioOperation) == 1 ==> leftExpression == res(higherPrioOperation, 0, 0)) && (calls(higherPrioOperation) == 2 ==> isType(leftExpression, "parser.BinaryOperation") && asType(leftExpression, "parser.BinaryOperation").left == res(higherPrioOperation, 0, 0) && asType(leftExpression, "parser.BinaryOperation").right == res(higherPrioOperation, 1, 0))
+//@   loop @"for" invariant[C06] accumulator-typed: specTyped(leftExpression)
+//@   loop @"for" invariant[C01,C04] left-assoc-source-order: calls(higherPrioOperation) >= 1 && (calls(higherPrioOperation) == 1 ==> leftExpression == res(higherPrioOperation, 0, 0)) && (calls(higherPrioOperation) == 2 ==> isType(leftExpression, "parser.BinaryOperation") && asType(leftExpression, "parser.BinaryOperation").left == res(higherPrioOperation, 0, 0) && asType(leftExpression, "parser.BinaryOperation").right == res(higherPrioOperation, 1, 0))
 //@   ensures[C06] typed: err == nil ==> specTyped(result0)
 //@   ensures[C01,C04] single-operand-unchanged: err == nil && calls(higherPrioOperation) == 1 ==> result0 == res(higherPrioOperation, 0, 0)
 //@   ensures[C01,C04] first-fold-left-then-right: err == nil && calls(higherPrioOperation) == 2 ==> isType(result0, "parser.BinaryOperation") && asType(result0, "parser.BinaryOperation").left == res(higherPrioOperation, 0, 0) && asType(result0, "parser.BinaryOperation").right == res(higherPrioOperation, 1, 0)
@@ -196,8 +196,8 @@ func specInScope(stack []scope, n int, s scope) bool {
 //@ func (*Parser).evaluateLogicalOperation
 //@   requires[C06] known-operator: operator == "&&" || operator == "||"
 //@   param higherPrioOperation ensures[C06] typed-result: err == nil ==> specTyped(result)
-//@   loop 1 invariant[C06] accumulator-typed: specTyped(leftExpression)
-//@   loop 1 invariant[C01,C04] left-assoc-source-order: calls(higherPrioOperation) >= 1 && (calls(higherPrioOperation) == 1 ==> leftExpression == res(higherPrioOperation, 0, 0)) && (calls(higherPrioOperation) == 2 ==> isType(leftExpression, "parser.LogicalOperation") && asType(leftExpression, "parser.LogicalOperation").left == res(higherPrioOperation, 0, 0) && asType(leftExpression, "parser.LogicalOperation").right == res(higherPrioOperation, 1, 0) && asType(leftExpression, "parser.LogicalOperation").operator == operator)
+//@   loop @"for" invariant[C06] accumulator-typed: specTyped(leftExpression)
+//@   loop @"for" invariant[C01,C04] left-assoc-source-order: calls(higherPrioOperation) >= 1 && (calls(higherPrioOperation) == 1 ==> leftExpression == res(higherPrioOperation, 0, 0)) && (calls(higherPrioOperation) == 2 ==> isType(leftExpression, "parser.LogicalOperation") && asType(leftExpression, "parser.LogicalOperation").left == res(higherPrioOperation, 0, 0) && asType(leftExpression, "parser.LogicalOperation").right == res(higherPrioOperation, 1, 0) && asType(leftExpression, "parser.LogicalOperation").operator == operator)
 //@   ensures[C06] typed: err == nil ==> specTyped(result0)
 //@   ensures[C01,C04] first-fold-left-then-right: err == nil && calls(higherPrioOperation) == 2 ==> isType(result0, "parser.LogicalOperation") && asType(result0, "parser.LogicalOperation").left == res(higherPrioOperation, 0, 0) && asType(result0, "parser.LogicalOperation").right == res(higherPrioOperation, 1, 0) && asType(result0, "parser.LogicalOperation").operator == operator
 //
@@ -231,7 +231,7 @@ func specInScope(stack []scope, n int, s scope) bool {
 //@   ensures[C03,C04] end-index-only-for-ranges-as-end-minus-one: err == nil && isType(result0, "parser.StringSubscript") && asType(result0, "parser.StringSubscript").endIndex != nil ==> isType(asType(result0, "parser.StringSubscript").endIndex, "parser.BinaryOperation") && asType(asType(result0, "parser.StringSubscript").endIndex, "parser.BinaryOperation").operator == "-" && asType(asType(result0, "parser.StringSubscript").endIndex, "parser.BinaryOperation").right == specIntLit(1)
 //
 //@ func (*Parser).evaluateSliceInstantiation
-//@   loop 1 invariant[C06] elements-so-far: forall(k, 0, len(values), specTyped(values[k]) && values[k].ValueType().Equals(NewValueType(res(evaluateValueType, 0, 0).dataType, false)))
+//@   loop @"for" invariant[C06] elements-so-far: forall(k, 0, len(values), specTyped(values[k]) && values[k].ValueType().Equals(NewValueType(res(evaluateValueType, 0, 0).dataType, false)))
 //@   ensures[C06] typed: err == nil ==> specTyped(result0)
 //@   ensures[C06] every-element-has-the-element-type: err == nil ==> isType(result0, "parser.SliceInstantiation") && forall(k, 0, len(asType(result0, "parser.SliceInstantiation").values), specTyped(asType(result0, "parser.SliceInstantiation").values[k]) && asType(result0, "parser.SliceInstantiation").values[k].ValueType().Equals(NewValueType(asType(result0, "parser.SliceInstantiation").dataType, false)))
 //
@@ -254,16 +254,16 @@ func specInScope(stack []scope, n int, s scope) bool {
 //@   ensures[C06] typed: err == nil ==> specTyped(result0)
 //
 //@ func (*Parser).evaluateArguments
-//@   loop 1 invariant[C06] arguments-so-far-typed: forall(k, 0, len(args), specTyped(args[k])) && (params != nil ==> len(args) <= len(params) && forall(k, 0, len(args), params[k].valueType.Equals(args[k].ValueType())))
+//@   loop @"for nextToken.Type() != lexer.CLOSING_ROUND_BRACKET" invariant[C06] arguments-so-far-typed: forall(k, 0, len(args), specTyped(args[k])) && (params != nil ==> len(args) <= len(params) && forall(k, 0, len(args), params[k].valueType.Equals(args[k].ValueType())))
 //@   ensures[C06] arguments-typed: err == nil ==> forall(k, 0, len(result0), specTyped(result0[k]))
 //@   ensures[C06] arity-and-types-match-parameters: err == nil && params != nil ==> len(result0) == len(params) && forall(k, 0, len(params), params[k].valueType.Equals(result0[k].ValueType()))
 //
 //@ func (*Parser).evaluateBuiltInFunction
 //@   flag inline: true
-//@   loop 1 invariant[C06] arguments-typed: forall(k, 0, len(expressions), specTyped(expressions[k]))
+//@   loop @"for" invariant[C06] arguments-typed: forall(k, 0, len(expressions), specTyped(expressions[k]))
 //
 //@ func (*Parser).evaluateParams
-//@   loop 1 invariant[C06] never-nil: params != nil
+//@   loop @"for" invariant[C06] never-nil: params != nil
 //@   ensures[C06] never-nil-on-success: err == nil ==> result0 != nil
 //
 //@ func (*Parser).evaluateFunctionDefinition
@@ -286,7 +286,7 @@ func specInScope(stack []scope, n int, s scope) bool {
 //@ type-invariant context c [C13] maps-and-scope: c.variables != nil && c.functions != nil && c.imports != nil && len(c.scopeStack) >= 1
 //
 //@ func (*Parser).evaluateBlockContent
-//@   loop 1 invariant[C07] flag-only-cleared-on-the-way-out: loop
+//@   loop @"for loop" invariant[C07] flag-only-cleared-on-the-way-out: loop
 //@   ensures[C07] callback-called-last-with-the-end-flag: err == nil && callback != nil ==> calls(callback) >= 1 && arg(callback, calls(callback) - 1, 1) && res(callback, calls(callback) - 1, 0) == nil
 //@   ensures[C07] callback-sees-the-complete-block: err == nil && callback != nil ==> calls(callback) >= 1 && len(arg(callback, calls(callback) - 1, 0)) == len(result0)
 //@   flag notypeinv: true
@@ -320,8 +320,8 @@ func specInScope(stack []scope, n int, s scope) bool {
 // function reachable from startFunc.
 //@ func (*Parser).getUsedFuncs
 //@   flag modular: true
-//@   loop 1 invariant[C09] callees-so-far-and-their-closures-included: calls(getUsedFuncs) == rangeindex + 1 && forall(k, 0, rangeindex + 1, inList(usedFuncs, calleesOf(p, startFunc)[k]) && arg(getUsedFuncs, k, 1) == calleesOf(p, startFunc)[k] && forall(j, 0, len(res(getUsedFuncs, k, 0)), inList(usedFuncs, res(getUsedFuncs, k, 0)[j])))
-//@   loop 2 invariant[C09] current-closure-so-far-included: calls(getUsedFuncs) >= 1 && calls(getUsedFuncs) <= len(calleesOf(p, startFunc)) && forall(k, 0, calls(getUsedFuncs), inList(usedFuncs, calleesOf(p, startFunc)[k]) && arg(getUsedFuncs, k, 1) == calleesOf(p, startFunc)[k]) && forall(k, 0, calls(getUsedFuncs) - 1, forall(j, 0, len(res(getUsedFuncs, k, 0)), inList(usedFuncs, res(getUsedFuncs, k, 0)[j]))) && forall(j, 0, rangeindex + 1, inList(usedFuncs, res(getUsedFuncs, calls(getUsedFuncs) - 1, 0)[j]))
+//@   loop @"range usedFuncsTemp" invariant[C09] callees-so-far-and-their-closures-included: calls(getUsedFuncs) == rangeindex + 1 && forall(k, 0, rangeindex + 1, inList(usedFuncs, calleesOf(p, startFunc)[k]) && arg(getUsedFuncs, k, 1) == calleesOf(p, startFunc)[k] && forall(j, 0, len(res(getUsedFuncs, k, 0)), inList(usedFuncs, res(getUsedFuncs, k, 0)[j])))
+//@   loop @"range usedSubFuncs" invariant[C09] current-closure-so-far-included: calls(getUsedFuncs) >= 1 && calls(getUsedFuncs) <= len(calleesOf(p, startFunc)) && forall(k, 0, calls(getUsedFuncs), inList(usedFuncs, calleesOf(p, startFunc)[k]) && arg(getUsedFuncs, k, 1) == calleesOf(p, startFunc)[k]) && forall(k, 0, calls(getUsedFuncs) - 1, forall(j, 0, len(res(getUsedFuncs, k, 0)), inList(usedFuncs, res(getUsedFuncs, k, 0)[j]))) && forall(j, 0, rangeindex + 1, inList(usedFuncs, res(getUsedFuncs, calls(getUsedFuncs) - 1, 0)[j]))
 //@   ensures[C09] every-direct-callee-is-kept: has(p.usedFuncs, strings.TrimSpace(startFunc)) ==> forall(k, 0, len(calleesOf(p, startFunc)), inList(result, calleesOf(p, startFunc)[k]))
 //@   ensures[C09] closed-under-callees-of-callees: has(p.usedFuncs, strings.TrimSpace(startFunc)) ==> calls(getUsedFuncs) == len(calleesOf(p, startFunc)) && forall(k, 0, len(calleesOf(p, startFunc)), arg(getUsedFuncs, k, 1) == calleesOf(p, startFunc)[k] && forall(j, 0, len(res(getUsedFuncs, k, 0)), inList(result, res(getUsedFuncs, k, 0)[j])))
 //@   ensures[C09,C14] call-graph-untouched: sameExcept(p, old(p))
@@ -350,10 +350,10 @@ func specInScope(stack []scope, n int, s scope) bool {
 //@   ensures[C07] visible-name-rejected: (result != nil) == specVarVisible(ctx, token.value, p.prefix)
 //
 //@ func (*Parser).evaluateVarAssignment
-//@   loop 1 invariant[C06] types-of-the-values: len(valuesTypes) == rangeindex + 1 && forall(k, 0, rangeindex + 1, valuesTypes[k] == res(evaluateValues, 0, 0).values[k].ValueType())
+//@   loop @"range evaluatedVals.values" invariant[C06] types-of-the-values: len(valuesTypes) == rangeindex + 1 && forall(k, 0, rangeindex + 1, valuesTypes[k] == res(evaluateValues, 0, 0).values[k].ValueType())
 //@   ensures[C06] value-k-has-the-type-of-variable-k: err == nil && isType(result0, "parser.VariableAssignment") ==> len(asType(result0, "parser.VariableAssignment").values) == len(asType(result0, "parser.VariableAssignment").variables) && forall(k, 0, len(asType(result0, "parser.VariableAssignment").variables), specTyped(asType(result0, "parser.VariableAssignment").values[k]) && asType(result0, "parser.VariableAssignment").values[k].ValueType() == asType(result0, "parser.VariableAssignment").variables[k].valueType)
-//@   loop 2 invariant[C02] targets-are-the-defined-variables: len(variables) == rangeindex + 1 && forall(k, 0, rangeindex + 1, has(ctx.variables, specVarKey(ctx, res(evaluateVarNames, 0, 0)[k].value, p.prefix)) && variables[k] == get(ctx.variables, specVarKey(ctx, res(evaluateVarNames, 0, 0)[k].value, p.prefix)))
-//@   loop 2 invariant[C06] variable-k-has-the-type-of-value-k: forall(k, 0, rangeindex + 1, variables[k].valueType == valuesTypes[k]) && len(valuesTypes) == len(res(evaluateVarNames, 0, 0))
+//@   loop @"range nameTokens" invariant[C02] targets-are-the-defined-variables: len(variables) == rangeindex + 1 && forall(k, 0, rangeindex + 1, has(ctx.variables, specVarKey(ctx, res(evaluateVarNames, 0, 0)[k].value, p.prefix)) && variables[k] == get(ctx.variables, specVarKey(ctx, res(evaluateVarNames, 0, 0)[k].value, p.prefix)))
+//@   loop @"range nameTokens" invariant[C06] variable-k-has-the-type-of-value-k: forall(k, 0, rangeindex + 1, variables[k].valueType == valuesTypes[k]) && len(valuesTypes) == len(res(evaluateVarNames, 0, 0))
 //
 //@ func (*Parser).evaluateIncrementDecrement
 //@   ensures[C06] the-counted-variable-is-an-integer: err == nil ==> specTyped(asType(result0, "parser.VariableAssignment").values[0]) && asType(result0, "parser.VariableAssignment").values[0].ValueType().IsInt()
@@ -364,8 +364,8 @@ func specInScope(stack []scope, n int, s scope) bool {
 //@   ensures[C01] same-variable-both-sides: isType(result, "parser.VariableAssignment") && asType(result, "parser.VariableAssignment").variables[0] == variable && asType(asType(asType(result, "parser.VariableAssignment").values[0], "parser.BinaryOperation").left, "parser.VariableEvaluation").Variable == variable && (increment ==> asType(asType(result, "parser.VariableAssignment").values[0], "parser.BinaryOperation").operator == "+") && (!increment ==> asType(asType(result, "parser.VariableAssignment").values[0], "parser.BinaryOperation").operator == "-")
 //
 //@ func (*Parser).evaluateIf
-//@   loop 1 invariant[C06] conditions-so-far-boolean: i >= 0 && (i >= 1 ==> specTyped(ifStatement.ifBranch.condition) && ifStatement.ifBranch.condition.ValueType().IsBool()) && forall(k, 0, len(ifStatement.elifBranches), specTyped(ifStatement.elifBranches[k].condition) && ifStatement.elifBranches[k].condition.ValueType().IsBool())
-//@   loop 1 invariant[C01,C04] branches-so-far-kept-in-order: calls(evaluateBlock) == i && (i == 0 ==> calls(evaluateExpression) == 0) && (i >= 1 ==> calls(evaluateExpression) == 1 + len(ifStatement.elifBranches) && ifStatement.ifBranch.condition == res(evaluateExpression, 0, 0) && ifStatement.ifBranch.body == res(evaluateBlock, 0, 0)) && forall(k, 0, len(ifStatement.elifBranches), ifStatement.elifBranches[k].condition == res(evaluateExpression, k + 1, 0))
+//@   loop @"for true" invariant[C06] conditions-so-far-boolean: i >= 0 && (i >= 1 ==> specTyped(ifStatement.ifBranch.condition) && ifStatement.ifBranch.condition.ValueType().IsBool()) && forall(k, 0, len(ifStatement.elifBranches), specTyped(ifStatement.elifBranches[k].condition) && ifStatement.elifBranches[k].condition.ValueType().IsBool())
+//@   loop @"for true" invariant[C01,C04] branches-so-far-kept-in-order: calls(evaluateBlock) == i && (i == 0 ==> calls(evaluateExpression) == 0) && (i >= 1 ==> calls(evaluateExpression) == 1 + len(ifStatement.elifBranches) && ifStatement.ifBranch.condition == res(evaluateExpression, 0, 0) && ifStatement.ifBranch.body == res(evaluateBlock, 0, 0)) && forall(k, 0, len(ifStatement.elifBranches), ifStatement.elifBranches[k].condition == res(evaluateExpression, k + 1, 0))
 //@   ensures[C01,C04] every-else-if-branch-kept-in-source-order: err == nil ==> calls(evaluateExpression) == 1 + len(asType(result0, "parser.If").elifBranches) && asType(result0, "parser.If").ifBranch.condition == res(evaluateExpression, 0, 0) && asType(result0, "parser.If").ifBranch.body == res(evaluateBlock, 0, 0) && forall(k, 0, len(asType(result0, "parser.If").elifBranches), asType(result0, "parser.If").elifBranches[k].condition == res(evaluateExpression, k + 1, 0))
 //@   ensures[C06] every-condition-boolean: err == nil ==> isType(result0, "parser.If") && specTyped(asType(result0, "parser.If").ifBranch.condition) && asType(result0, "parser.If").ifBranch.condition.ValueType().IsBool() && forall(k, 0, len(asType(result0, "parser.If").elifBranches), specTyped(asType(result0, "parser.If").elifBranches[k].condition) && asType(result0, "parser.If").elifBranches[k].condition.ValueType().IsBool())
 //
@@ -377,15 +377,15 @@ func specInScope(stack []scope, n int, s scope) bool {
 //@   ensures[C06] index-int-value-of-element-type: err == nil ==> isType(result0, "parser.SliceAssignment") && specTyped(asType(result0, "parser.SliceAssignment").index) && asType(result0, "parser.SliceAssignment").index.ValueType().IsInt() && specTyped(asType(result0, "parser.SliceAssignment").value) && asType(result0, "parser.SliceAssignment").Variable.valueType.isSlice && asType(result0, "parser.SliceAssignment").value.ValueType().Equals(NewValueType(asType(result0, "parser.SliceAssignment").Variable.valueType.dataType, false))
 //
 //@ func (*Parser).evaluateValues
-//@   loop 1 invariant[C06] values-so-far-typed: forall(k, 0, len(expressions), specTyped(expressions[k]))
+//@   loop @"for" invariant[C06] values-so-far-typed: forall(k, 0, len(expressions), specTyped(expressions[k]))
 //@   ensures[C06,C13] typed-and-non-empty: err == nil ==> len(result0.values) >= 1 && forall(k, 0, len(result0.values), specTyped(result0.values[k]))
 //
 //@ func (*Parser).evaluateVarNames
-//@   loop 1 invariant[C13] names-so-far: len(nameTokens) >= 0
+//@   loop @"for" invariant[C13] names-so-far: len(nameTokens) >= 0
 //@   ensures[C13] at-least-one-name: err == nil ==> len(result0) >= 1
 //
 //@ func (*Parser).evaluateCompoundAssignment
-//@   loop 1 invariant[C06] types-of-the-values: len(valuesTypes) == rangeindex + 1 && forall(k, 0, rangeindex + 1, valuesTypes[k] == res(evaluateValues, 0, 0).values[k].ValueType())
+//@   loop @"range values" invariant[C06] types-of-the-values: len(valuesTypes) == rangeindex + 1 && forall(k, 0, rangeindex + 1, valuesTypes[k] == res(evaluateValues, 0, 0).values[k].ValueType())
 //@   ensures[C06] typed-operation-on-the-defined-variable: err == nil ==> isType(result0, "parser.VariableAssignment") && len(asType(result0, "parser.VariableAssignment").values) == 1 && specTyped(asType(result0, "parser.VariableAssignment").values[0])
 //
 //@ func (*Parser).evaluateBreak
@@ -399,7 +399,7 @@ func specInScope(stack []scope, n int, s scope) bool {
 //
 //@ func (context).addVariables
 //@   flag inline: true
-//@   loop 1 invariant[C02,C07] registered-so-far: forall(k, 0, rangeindex + 1, has(c.variables, specKeyOf(c, variables[k].name, prefix, global)) && (forall(j, k + 1, rangeindex + 1, specKeyOf(c, variables[j].name, prefix, global) != specKeyOf(c, variables[k].name, prefix, global)) ==> get(c.variables, specKeyOf(c, variables[k].name, prefix, global)) == variables[k]))
+//@   loop @"range variables" invariant[C02,C07] registered-so-far: forall(k, 0, rangeindex + 1, has(c.variables, specKeyOf(c, variables[k].name, prefix, global)) && (forall(j, k + 1, rangeindex + 1, specKeyOf(c, variables[j].name, prefix, global) != specKeyOf(c, variables[k].name, prefix, global)) ==> get(c.variables, specKeyOf(c, variables[k].name, prefix, global)) == variables[k]))
 //@   ensures[C02,C07] every-variable-registered-last-one-wins: result == nil ==> forall(k, 0, len(variables), has(c.variables, specKeyOf(c, variables[k].name, prefix, global))) && (len(variables) >= 1 ==> get(c.variables, specKeyOf(c, variables[len(variables) - 1].name, prefix, global)) == variables[len(variables) - 1])
 //
 //@ func (context).addImport
